@@ -12,10 +12,10 @@ ENTRY = dict(
                 "condition language (validated by the c04cond differential); the interleaving statement is proved per message "
                 "(independence of tokens) and for the two per-token orders, not as one theorem over arbitrary inboxes"),
     technique="Lean 4 proof (decision kernel + per-token independence of the gateway actor) + exhaustive differential",
-    lean_modules=["Bpmn.Props.C04", "Bpmn.Props.EngineCurrent"],
+    lean_modules=["Bpmn.Props.C04", "Bpmn.Props.EngineCurrent", "Bpmn.Props.C04Current"],
     families=["c04cond", "c04"],
     exhaustive=True,
-    facts_from=["Engine"],
+    facts_from=["Engine"],   # plus its own Bpmn.Gen.C04 (xpathVarsReachable: which model of the XPath engine c04cond uses)
     rule=("c04: process fork(k tokens) -> exclusive gateway with c conditional flows (`b_i == 1`) and an optional default at "
           "list position d -> one task per outgoing flow; all c in 1..4, d in {none,0..c}, all 2^c truth assignments, k in 1..3 "
           "(quick: one third of c=4), tokens released one by one or all at once; observations at quiescence compared with the "
